@@ -60,6 +60,7 @@ def run(res, tier):
             P = np.asarray(reg.P_)
             desc = dict(supply_rate=name, Xi=xi_eff.tolist(), data=kind, n_states=ns, n_inputs=nu, estimator=repr(reg),
                         n_iter=int(reg.n_iter_), stop_reason=str(reg.stop_reason_))
+            common.note_case('fit', desc['estimator'], X)
             info = None
             zero = not (np.any(A) or np.any(B))
             if zero:
